@@ -147,3 +147,11 @@ harness! {
         std::mem::forget(st);
     }
 }
+
+// native replay slot (cargo kani playback): the driver points IPA_VERIF_REPLAY_DIR at a directory
+// holding one file per hook; the generated test calls the harness by its path relative to this module.
+#[cfg(test)]
+mod replay_here {
+    use super::*;
+    include!(concat!(env!("IPA_VERIF_REPLAY_DIR"), "/unordered_receiver.rs"));
+}
